@@ -713,3 +713,31 @@ func init() {
 		return notHandled{}
 	}
 }
+
+func init() {
+	// unique.Make[T]: canonical pointer per distinct (concrete) value; Handle[T] is struct{value *T}
+	externals["unique.Make"] = func(fr *frame, a []value) value {
+		i := fr.i
+		var T types.Type
+		if ta := fr.fn.TypeArgs(); len(ta) == 1 {
+			T = ta[0]
+		} else {
+			panic(abort(abUnsupported, "unique.Make without type argument"))
+		}
+		ck, ok := canonKey(T, a[0])
+		if !ok {
+			panic(abort(abUnsupported, "unique.Make of a symbolic value"))
+		}
+		key := fmt.Sprintf("%s|%T|%v", T.String(), ck, ck)
+		if i.uniq == nil {
+			i.uniq = map[string]*value{}
+		}
+		p := i.uniq[key]
+		if p == nil {
+			cell := copyAgg(a[0])
+			p = &cell
+			i.uniq[key] = p
+		}
+		return structure{p}
+	}
+}
